@@ -491,6 +491,7 @@ func (r *runner) exec(c *Cmd) error {
 				return nil, err
 			}
 			seen := map[string]bool{}
+			typeOf := map[string]string{}
 			var lits []string
 			for _, row := range sub {
 				v, ok := row.Dims[dim]
@@ -506,6 +507,13 @@ func (r *runner) exec(c *Cmd) error {
 				default:
 					lit = fmt.Sprint(x)
 				}
+				// values of different types that print alike (int 1 and float64 1) are different
+				// values for IN: one literal cannot stand for both
+				ty := fmt.Sprintf("%T", v)
+				if prev, ok := typeOf[lit]; ok && prev != ty {
+					return nil, fmt.Errorf("the sub-query returns %s as %s and as %s, which one literal cannot express", lit, prev, ty)
+				}
+				typeOf[lit] = ty
 				if !seen[lit] {
 					seen[lit] = true
 					lits = append(lits, lit)
